@@ -127,7 +127,7 @@ def verify_function(c, extra_options=None):
                 cur.env["result"] = oc.value
                 if c.exit_hints:
                     ex.apply_hints(cur, c.exit_hints, fs.path)
-                for nm, e in c.ensures.items():
+                for nm, e in list(c.ensures.items()) + list(c.local_ensures.items()):
                     g = ex.spec_eval(e, cur)
                     by = (c.options.get("by") or {}).get(nm)
                     ex.emit(cur, "post", nm, g, fs.path, by=by)
